@@ -154,42 +154,8 @@ def run(ctx):
     # ---------------------------------------------------------------- R6
     r = ctx.rule("C17-R6", "OWNER", "class-level and module-level mutable containers are never mutated, except as a "
                  "memo (R4) or a memo slot (R1)", reference=9)
-    slots_seen = 0
-    containers = {}
-    for ci in p.classes.values():
-        for name, val in ci.attrs.items():
-            if _is_container(val):
-                containers[ci.qualname + "." + name] = (ci.module, val)
-    for mod in p.modules.values():
-        for name, val in mod.assigns.items():
-            if _is_container(val):
-                containers[mod.name + "." + name] = (mod, val)
-    muts = {}
-    for fi in p.all_functions():
-        for ev in eff.events_in(fi):
-            rt = root(ev.token)
-            if rt[0] == "g" and rt[1] in containers and not is_fresh(ev.token) and ev.origin_event().fi is fi:
-                muts.setdefault(rt[1], []).append((fi, ev))
-    for slot in sorted(containers):
-        if slot not in muts:
-            r.ok("%s: never mutated" % slot.split("clikit.", 1)[-1])
-            continue
-        for fi, ev in muts[slot]:
-            node = ev.node
-            # memo pattern: store under a dominating 'key not in slot' test
-            if isinstance(node, ast.Assign) and isinstance(node.targets[0], ast.Subscript):
-                key_txt = norm(node.targets[0].slice)
-                cfg = ctx.cfg(fi)
-                from ..cfg import guarded_by
-
-                g = None
-                for cn in cfg.nodes_of(node):
-                    g = guarded_by(cfg, cn, lambda e: isinstance(e, ast.Compare) and isinstance(e.ops[0], ast.NotIn) and norm(e.left) == key_txt, polarity=True)
-                if g is not None:
-                    r.ok("%s: memo store in %s" % (slot.split("clikit.", 1)[-1], fi.short))
-                    continue
-            r.fail(fi, node, norm(node), "%s mutates the process-wide container %s: state survives from one run / render to the next"
-                   % (fi.short, slot.split("clikit.", 1)[-1]))
+    global_containers_rule(ctx, r)
+    class_level_through_self(ctx, r)
     shared_objects_rule(ctx, "C17-R7", lambda modname: True, reference=56)
 
     # ---------------------------------------------------------------- R8
@@ -277,6 +243,98 @@ def render_readonly_rule(ctx, r, mod_pred=None):
                 r.fail(m, ev.node, "self.%s via %s" % (top, norm(o.node)),
                        "%s.render changes the component's own state (%s): a second render differs from the first"
                        % (c.name, show(ev.token)), chain=ev.chain())
+
+
+def global_containers_rule(ctx, r, mod_pred=None):
+    """OWNER rule (shared with C15 for the section registry): process-wide containers are never mutated."""
+    p, cg, eff = ctx.p, ctx.cg, ctx.effects
+    slots_seen = 0
+    containers = {}
+    for ci in p.classes.values():
+        for name, val in ci.attrs.items():
+            if _is_container(val) and (mod_pred is None or mod_pred(ci.module.name)):
+                containers[ci.qualname + "." + name] = (ci.module, val)
+    for mod in p.modules.values():
+        for name, val in mod.assigns.items():
+            if _is_container(val) and (mod_pred is None or mod_pred(mod.name)):
+                containers[mod.name + "." + name] = (mod, val)
+    muts = {}
+    seen_origin = {}
+    for fi in p.all_functions():
+        for ev in eff.events_in(fi):
+            rt = root(ev.token)
+            if rt[0] == "g" and rt[1] in containers and not is_fresh(ev.token):
+                # reported once per mutating construct, at the function in which the object is known to be the shared one
+                # with the shortest call chain (the container may be handed to a callee that mutates its parameter)
+                ok_ = id(ev.origin_event().node)
+                cur = seen_origin.get((rt[1], ok_))
+                if cur is None or len(ev.via) < len(cur[1].via):
+                    seen_origin[(rt[1], ok_)] = (fi, ev)
+    for (slot_, _), (fi, ev) in seen_origin.items():
+        muts.setdefault(slot_, []).append((fi, ev))
+    for slot in sorted(containers):
+        if slot not in muts:
+            r.ok("%s: never mutated" % slot.split("clikit.", 1)[-1])
+            continue
+        for fi, ev in muts[slot]:
+            node = ev.node
+            if ev.origin_event().fi is not fi:
+                r.fail(fi, node, "%s handed to a mutator: %s" % (slot.split("clikit.", 1)[-1], norm(ev.origin_event().node)), "%s passes the process-wide container %s to code that mutates it (%s): "
+                       "what one object registers there is seen by every other object" % (fi.short, slot.split("clikit.", 1)[-1], ev.chain()), chain=ev.chain())
+                continue
+            # memo pattern: store under a dominating 'key not in slot' test
+            if isinstance(node, ast.Assign) and isinstance(node.targets[0], ast.Subscript):
+                key_txt = norm(node.targets[0].slice)
+                cfg = ctx.cfg(fi)
+                from ..cfg import guarded_by
+
+                g = None
+                for cn in cfg.nodes_of(node):
+                    g = guarded_by(cfg, cn, lambda e: isinstance(e, ast.Compare) and isinstance(e.ops[0], ast.NotIn) and norm(e.left) == key_txt, polarity=True)
+                if g is not None:
+                    r.ok("%s: memo store in %s" % (slot.split("clikit.", 1)[-1], fi.short))
+                    continue
+            r.fail(fi, node, norm(node), "%s mutates the process-wide container %s: state survives from one run / render to the next"
+                   % (fi.short, slot.split("clikit.", 1)[-1]))
+
+
+def class_level_through_self(ctx, r, mod_pred=None):
+    """A class-level container that no constructor rebinds per instance is one object for all instances: mutating it
+    through ``self.<name>`` (any alias depth, also by handing it to a callee that mutates it) is mutating shared state."""
+    p, eff = ctx.p, ctx.effects
+    for ci in sorted(p.classes.values(), key=lambda c: c.qualname):
+        if mod_pred is not None and not mod_pred(ci.module.name):
+            continue
+        for name, val in sorted(ci.attrs.items()):
+            if not _is_container(val):
+                continue
+            family = [ci] + [k for k in p.subclasses(ci, strict=True)]
+            rebinds = any(isinstance(n, ast.Assign) and any(is_self_attr(t, name) for t in n.targets)
+                          for k in family for m in k.methods.values() if m.name == "__init__" for n in walk_no_nested(m.node))
+            if rebinds:
+                continue
+            hit = None
+            for k in family:
+                for m in k.methods.values():
+                    for ev in eff.events_in(m):
+                        t = ev.token
+                        if root(t) != ("p", "self") or is_fresh(t):
+                            continue
+                        flds = path_fields(t)
+                        if flds and flds[-1] == name:
+                            hit = (m, ev)
+                            break
+                    if hit:
+                        break
+                if hit:
+                    break
+            if hit:
+                m, ev = hit
+                o = ev.origin_event()
+                r.fail(m, ev.node, "%s.%s (class level) mutated through self: %s" % (ci.name, name, norm(o.node)), "%s.%s is created once, at class level, and no constructor gives each instance its own: "
+                       "%s mutates it through self (%s), so all %s objects share what one of them registered" % (ci.name, name, m.short, ev.chain(), ci.name), chain=ev.chain())
+            else:
+                r.ok("%s.%s: class-level container, not mutated through self" % (ci.name, name))
 
 
 def shared_objects_rule(ctx, rule_id, mod_pred, reference=None):
